@@ -95,6 +95,22 @@ Definition build_root (skips : list string) (st : option nat) (s : sft) : option
   let r := build_members skips st1 (s_mems s) in
   (fst r, OBlock (sft_align s) (snd r)).
 
+(* generic iterators (kept as definitions over a local fix so that nested recursive calls pass the
+   guard checker and so that their lemmas are proved once) *)
+Definition iter_opt {A S} (f : A -> S -> option S) : list A -> S -> option S :=
+  fix it (vs : list A) (st : S) : option S :=
+    match vs with
+    | [] => Some st
+    | v :: vs => match f v st with Some st' => it vs st' | None => None end
+    end.
+Definition iter2_opt {A B S} (f : A -> B -> S -> option S) : list A -> list B -> S -> option S :=
+  fix go (os : list A) (vs : list B) (st : S) : option S :=
+    match os, vs with
+    | [], [] => Some st
+    | o :: os, v :: vs => match f o v st with Some st' => go os vs st' | None => None end
+    | _, _ => None
+    end.
+
 (* ------------------------------------------------------------------ C semantics of the ops *)
 Record sstate := mk_ss { ss_s : stream; ss_at : nat; ss_saved : list nat }.
 
@@ -139,21 +155,12 @@ Section Ser.
         else None
     | OArr al len body, VArr vs =>
         let st1 := mk_ss (ss_s st) (align_up (ss_at st) al) (ss_saved st) in
-        if match len with Some n => List.length vs =? n | None => true end then
-          (fix it (vs : list val) (st : sstate) : option sstate :=
-             match vs with
-             | [] => Some st
-             | v :: vs => match ser body v st with Some st' => it vs st' | None => None end
-             end) vs st1
+        if match len with Some n => List.length vs =? n | None => true end
+        then iter_opt (ser body) vs st1
         else None
     | OBlock al body, VArr vs =>
         let st1 := mk_ss (ss_s st) (align_up (ss_at st) al) (ss_saved st) in
-        (fix go (os : list op) (vs : list val) (st : sstate) : option sstate :=
-           match os, vs with
-           | [], [] => Some st
-           | o :: os, v :: vs => match ser o v st with Some st' => go os vs st' | None => None end
-           | _, _ => None
-           end) body vs st1
+        iter2_opt ser body vs st1
     | _, _ => None
     end.
 
@@ -164,18 +171,10 @@ Section Ser.
     | OStr al, VStr bs => Some (align_up at_ al + 8 * (List.length bs + 1))
     | OUuid al, VArr _ => None      (* no size template: the packet header is never sized *)
     | OArr al len body, VArr vs =>
-        if match len with Some n => List.length vs =? n | None => true end then
-          (fix it (vs : list val) (a : nat) : option nat :=
-             match vs with [] => Some a
-             | v :: vs => match size_op body v a with Some a' => it vs a' | None => None end end)
-            vs (align_up at_ al)
+        if match len with Some n => List.length vs =? n | None => true end
+        then iter_opt (size_op body) vs (align_up at_ al)
         else None
-    | OBlock al body, VArr vs =>
-        (fix go (os : list op) (vs : list val) (a : nat) : option nat :=
-           match os, vs with
-           | [], [] => Some a
-           | o :: os, v :: vs => match size_op o v a with Some a' => go os vs a' | None => None end
-           | _, _ => None end) body vs (align_up at_ al)
+    | OBlock al body, VArr vs => iter2_opt size_op body vs (align_up at_ al)
     | _, _ => None
     end.
 
@@ -195,17 +194,10 @@ Section Ser.
         if (List.length vs =? 16) && (at1 + 128 <=? lim)
         then Some (write_bytes at1 (map byte_of_val vs) (fst st), at1 + 128) else None
     | FSArr n e, VArr vs =>
-        if List.length vs =? n then
-          (fix it (vs : list val) (st : stream * nat) : option (stream * nat) :=
-             match vs with [] => Some st
-             | v :: vs => match enc e v st with Some st' => it vs st' | None => None end end)
-            vs (fst st, align_up (snd st) (ft_align e))
+        if List.length vs =? n
+        then iter_opt (enc e) vs (fst st, align_up (snd st) (ft_align e))
         else None
-    | FDArr _ e, VArr vs =>
-        (fix it (vs : list val) (st : stream * nat) : option (stream * nat) :=
-           match vs with [] => Some st
-           | v :: vs => match enc e v st with Some st' => it vs st' | None => None end end)
-          vs (fst st, align_up (snd st) (ft_align e))
+    | FDArr _ e, VArr vs => iter_opt (enc e) vs (fst st, align_up (snd st) (ft_align e))
     | _, _ => None
     end.
   Fixpoint enc_members (ms : list (string * ft)) (vs : list val) (st : stream * nat)
@@ -257,6 +249,13 @@ Definition tstruct_align (t : tstruct) : nat :=
 Fixpoint env_get (env : list (string * Z)) (k : string) : option Z :=
   match env with [] => None | (n, z) :: r => if String.eqb n k then Some z else env_get r k end.
 
+Definition dec_loop (f : nat -> option (dval * nat)) : nat -> nat -> list dval -> option (dval * nat) :=
+  fix loop (k : nat) (a : nat) (acc : list dval) : option (dval * nat) :=
+    match k with
+    | 0 => Some (DArr (rev acc), a)
+    | S k => match f a with Some (d, a') => loop k a' (d :: acc) | None => None end
+    end.
+
 Section Dec.
   Variable bo : byte_order.
   Variable s : stream.
@@ -284,20 +283,10 @@ Section Dec.
     | TStr =>
         match scan_str (S lim) (align_up at_ 8) [] with
         | Some (bs, at') => Some (DStr bs, at') | None => None end
-    | TArr n e =>
-        (fix loop (k : nat) (a : nat) (acc : list dval) : option (dval * nat) :=
-           match k with
-           | 0 => Some (DArr (rev acc), a)
-           | S k => match dec e env a with Some (d, a') => loop k a' (d :: acc) | None => None end
-           end) n (align_up at_ (talign e)) []
+    | TArr n e => dec_loop (dec e env) n (align_up at_ (talign e)) []
     | TSeq l e =>
         match env_get env l with
-        | Some z =>
-            (fix loop (k : nat) (a : nat) (acc : list dval) : option (dval * nat) :=
-               match k with
-               | 0 => Some (DArr (rev acc), a)
-               | S k => match dec e env a with Some (d, a') => loop k a' (d :: acc) | None => None end
-               end) (Z.to_nat z) (align_up at_ (talign e)) []
+        | Some z => dec_loop (dec e env) (Z.to_nat z) (align_up at_ (talign e)) []
         | None => None
         end
     end.
